@@ -170,6 +170,41 @@ def work(args):
     return out
 
 
+def front_end_cases():
+    """graphs built by the bytecode front end carry names of the generator's namespace: NG_inv must hold for
+    them and a further request must not collide; then the pipeline is run under the monitor."""
+    from numba_scfg.core.datastructures.byte_flow import ByteFlow
+    from numba_scfg.core.datastructures.basic_block import PythonBytecodeBlock
+    from rtc.prop_c12 import bytecode_functions
+    from rtc.prop_c09 import handwritten
+    out = []
+    for fn in bytecode_functions() + handwritten():
+        try:
+            scfg = ByteFlow.from_bytecode(fn).scfg
+        except Exception as e:
+            continue
+        bad = ng_inv(scfg)
+        if bad:
+            out.append({'what': 'front-end', 'function': fn.__name__, 'detail': {'kind': 'NG_inv-not-established', 'name': bad}})
+            continue
+        n = scfg.name_gen.new_block_name('python_bytecode')
+        if n in scfg.graph:
+            out.append({'what': 'front-end', 'function': fn.__name__, 'detail': {'kind': 'generated-name-already-present', 'name': n}})
+            continue
+        with Monitor(scfg) as mon:
+            try:
+                scfg.restructure()
+            except Exception as e:
+                out.append({'what': 'front-end', 'function': fn.__name__, 'detail': {'kind': 'raise:' + type(e).__name__}})
+                continue
+            for ev in mon.events:
+                out.append({'what': 'front-end', 'function': fn.__name__, 'detail': ev})
+        bad = ng_inv(scfg)
+        if bad:
+            out.append({'what': 'front-end', 'function': fn.__name__, 'detail': {'kind': 'NG_inv-broken', 'name': bad}})
+    return out
+
+
 def run(pool, tier, seed):
     from rtc import cfgpass
     tasks = []
@@ -195,4 +230,8 @@ def run(pool, tier, seed):
         d['fails'] += r['fails']
         if r['samples'] and len(d['samples']) < 4:
             d['samples'] += r['samples'][:1]
+    fe = front_end_cases()
+    d['fails'] += fe
+    d['cases'] += 15
+    d['nontrivial'] += 15
     return d
